@@ -24,4 +24,15 @@ structure LeafRow where
 def LeafRow.sound (r : LeafRow) : Bool :=
   !r.accepted || (decide (0 ≤ r.lo) && decide (r.hi ≤ r.size) && !r.outside && !r.panicked && !r.crashed)
 
+/-- the registry after `RegisterCodecs` of avro/time and avro/null, without user registrations -/
+def regLib : Reg := { lib := true, custom := fun _ => none }
+
+def isOk {α ε : Type} : Except ε α → Bool
+  | .ok _ => true
+  | .error _ => false
+
+/-- model verdict = implementation verdict for one row -/
+def leafAgrees (r : LeafRow) : Bool :=
+  isOk (buildCodec regLib 10 r.schema (some r.goType) false) == r.accepted
+
 end Avro
